@@ -111,7 +111,7 @@ var c19Kinds = []struct {
 	{"AttReqSecond", []string{"AttReq"}}, {"RepReqSecond", []string{"RepReq"}}, // a second open form of each kind
 	// governance sets parameters to the lowest values validation accepts / to values unlike the defaults
 	{"ParamsZeroSecond", nil}, {"ParamsAltSecond", nil},
-	{"AddRecordSecond", []string{"AddRecord"}}, // a second sub-record, added out of alphabetical order
+	{"AddRecordSecond", []string{"AddRecord"}},     // a second sub-record, added out of alphabetical order
 	{"KeybaseSecond", []string{"InitProvider:P1"}}, // a long provider identity with a multi-byte character across the 64th byte
 }
 
@@ -656,7 +656,9 @@ func c19ContentsEnum() mc.Enum {
 		{"rns-record-value", regName, func(u, b, v string) sdk.Msg { return rnstypes.NewMsgAddRecord(u, "alpha.jkl", "sub", v, "{}") }},
 		{"rns-name-data", nil, func(u, b, v string) sdk.Msg { return rnstypes.NewMsgRegisterName(u, "beta.jkl", 1, v, false) }},
 		{"rns-update-data", regName, func(u, b, v string) sdk.Msg { return rnstypes.NewMsgUpdate(u, "alpha.jkl", v) }},
-		{"notification-contents", nil, func(u, b, v string) sdk.Msg { return notiftypes.NewMsgCreateNotification(b, u, jmap(map[string]string{v: v}), nil) }},
+		{"notification-contents", nil, func(u, b, v string) sdk.Msg {
+			return notiftypes.NewMsgCreateNotification(b, u, jmap(map[string]string{v: v}), nil)
+		}},
 		{"oracle-feed-name", nil, func(u, b, v string) sdk.Msg { return oracletypes.NewMsgCreateFeed(u, v) }},
 		{"filetree-public-key", nil, func(u, b, v string) sdk.Msg { return fttypes.NewMsgPostKey(u, v) }},
 		{"filetree-contents", provision, func(u, b, v string) sdk.Msg {
@@ -668,9 +670,15 @@ func c19ContentsEnum() mc.Enum {
 		{"filetree-access-key", nil, func(u, b, v string) sdk.Msg {
 			return fttypes.NewMsgProvisionFileTree(u, jmap(map[string]string{ftEditorID(c10Track, u): v}), jmap(map[string]string{ftViewerID(c10Track, u): v}), c10Track)
 		}},
-		{"storage-file-note", plan, func(u, b, v string) sdk.Msg { return storagetypes.NewMsgPostFile(u, f.merkle, 12, 0, 0, 1, jmap(map[string]string{v: v})) }},
-		{"storage-provider-keybase", nil, func(u, b, v string) sdk.Msg { return storagetypes.NewMsgInitProvider(b, "https://node.one.com", 1000, v) }},
-		{"storage-provider-ip", nil, func(u, b, v string) sdk.Msg { return storagetypes.NewMsgInitProvider(b, "https://"+v+".com/"+v, 1000, "kb") }},
+		{"storage-file-note", plan, func(u, b, v string) sdk.Msg {
+			return storagetypes.NewMsgPostFile(u, f.merkle, 12, 0, 0, 1, jmap(map[string]string{v: v}))
+		}},
+		{"storage-provider-keybase", nil, func(u, b, v string) sdk.Msg {
+			return storagetypes.NewMsgInitProvider(b, "https://node.one.com", 1000, v)
+		}},
+		{"storage-provider-ip", nil, func(u, b, v string) sdk.Msg {
+			return storagetypes.NewMsgInitProvider(b, "https://"+v+".com/"+v, 1000, "kb")
+		}},
 		{"storage-provider-new-keybase", provider, func(u, b, v string) sdk.Msg { return storagetypes.NewMsgSetProviderKeybase(b, v) }},
 		{"storage-provider-claimer", provider, func(u, b, v string) sdk.Msg { return storagetypes.NewMsgAddClaimer(b, u) }},
 	}
